@@ -776,12 +776,14 @@ class PhaseField(_IModel):
 
         if self.dim == 2:
             # invariants of the strain tensor [e,pg]
-            det_e_pg = Det(matrix_e_pg)
-
             tr_e_pg = Trace(matrix_e_pg)
 
             # Eigenvalue calculations [e,pg]
-            delta = tr_e_pg**2 - (4 * det_e_pg)
+            # delta = tr**2 - 4 det written as a sum of squares (symmetric tensor),
+            # tr**2 - 4 det can be rounded to a negative value when the eigenvalues are close.
+            delta = (matrix_e_pg[..., 0, 0] - matrix_e_pg[..., 1, 1]) ** 2 + (
+                4 * matrix_e_pg[..., 0, 1] * matrix_e_pg[..., 1, 0]
+            )
 
             eigs_e_pg = FeArray.zeros(Ne, nPg, 2)
             eigs_e_pg[:, :, 0] = (tr_e_pg - np.sqrt(delta)) / 2
